@@ -2177,7 +2177,7 @@ ure_exec(ure_dfa_t dfa, int flags, ucs2_t *text, unsigned long textlen,
 #endif
 {
   int i, j, matched, found, skip;
-  unsigned long ms, me;
+  unsigned long ms, me, acc_me;
   ucs4_t c;
   ucs2_t *sp, *ep, *lp;
   _ure_dstate_t *stp;
@@ -2198,7 +2198,7 @@ ure_exec(ure_dfa_t dfa, int flags, ucs2_t *text, unsigned long textlen,
   sp = text;
   ep = sp + textlen;
 
-  ms = me = ~0;
+  ms = me = acc_me = ~0;
 
   stp = dfa->states;
 
@@ -2295,6 +2295,13 @@ ure_exec(ure_dfa_t dfa, int flags, ucs2_t *text, unsigned long textlen,
 	stp = dfa->states + stp->trans[i].next_state;
 
 	/*
+	 * Remember the longest match so far, in case we run into
+	 * a dead end trying to extend it.
+	 */
+	if (stp->accepting)
+	  acc_me = me;
+
+	/*
 	 * If the match was an EOL anchor, adjust the pointer past the
 	 * separator that caused the match.  The correct match
 	 * position has been recorded already.
@@ -2315,19 +2322,29 @@ ure_exec(ure_dfa_t dfa, int flags, ucs2_t *text, unsigned long textlen,
     }
 
     if (matched == 0) {
-      if (stp->accepting == 0) {
-	/*
-	 * If the last state was not accepting, then reset
-	 * and start over.
-	 */
-	stp = dfa->states;
-	ms = me = ~0;
-      } else
+      if (stp->accepting) {
 	/*
 	 * The last state was accepting, so terminate the matching
 	 * loop to avoid more work.
 	 */
 	found = 1;
+      } else if (acc_me != (unsigned long) ~0) {
+	/*
+	 * A shorter match was found before this dead end.
+	 */
+	me = acc_me;
+	found = 1;
+      } else {
+	/*
+	 * If the last state was not accepting, then reset
+	 * and start over, one character after the start of the
+	 * failed attempt ("ab" must be found in "aab").
+	 */
+	if (ms != (unsigned long) ~0)
+	  sp = text + ms + 1;
+	stp = dfa->states;
+	ms = me = ~0;
+      }
     } else if (sp == ep) {
       if (!stp->accepting) {
 	/*
@@ -2344,6 +2361,20 @@ ure_exec(ure_dfa_t dfa, int flags, ucs2_t *text, unsigned long textlen,
 	      found = 1;
 	    } else
 	      break;
+	  }
+	}
+	if (found == 0) {
+	  if (acc_me != (unsigned long) ~0) {
+	    me = acc_me;
+	    found = 1;
+	  } else if (ms != (unsigned long) ~0 && text + ms + 1 < ep) {
+	    /*
+	     * Text exhausted in the middle of an attempt: retry
+	     * one character after its start.
+	     */
+	    sp = text + ms + 1;
+	    stp = dfa->states;
+	    ms = me = ~0;
 	  }
 	}
       } else {
